@@ -134,8 +134,10 @@ where
                         }
 
                         for id in dropped {
-                            debug!(session_id = id, "drop session: channel unexpectedly closed");
-                            state.session_topic_map.drop(id);
+                            // The session ended, but events it emitted before can still be
+                            // pending on this stream: keep its topic, only stop sending to it.
+                            debug!(session_id = id, "close session: channel unexpectedly closed");
+                            state.session_topic_map.close(id);
                         }
 
                         // If this operation was already present in the deduplication buffer then
